@@ -100,9 +100,9 @@ where
 (CTM/Lemmas/TreeDefs.lean: key set = hierarchy, string node names, every listed
 child exists, no orphan, no second parent, no repeated child, no repeated row):
 nothing less is accepted, and — for distinct level names — nothing more is
-demanded. -/
+demanded beyond a non-empty hierarchy (the code evaluates `hierarchy[-1]`). -/
 theorem validate_iff_strict (t : RawTree) (hn : t.hierarchy.Nodup) :
-    t.validate = .ok () ↔ Strict t :=
+    t.validate = .ok () ↔ Strict t ∧ t.hierarchy ≠ [] :=
   validate_ok_iff hn
 
 example : exTree.hierarchy.Nodup := by decide
